@@ -1,12 +1,8 @@
-import DcmVerif.Generated.Code
+import DcmVerif.Generated.Code_stack
 import DcmVerif.Proofs.Stack
-import DcmVerif.Model.Stack
 import DcmVerif.Model.Wrap
-/-! The functions `tools/gen_code.py` translates from the Python source (`Generated/Code.lean`,
-namespace `Py`) are equal to the hand-written model functions the property theorems are about.
-These proofs are re-checked against what the source says on every run: an edit of
-`get_valid_classes`, `get_multiplicity`, the index block of `get_meta` or the `file_idx` expressions
-of `get_data` changes the generated definitions and the equalities below must still hold. -/
+import DcmVerif.Proofs.CodeLemmas
+/-! the count checks of `get_shape` and the thorough check of `_chk_order` as translated from dcmstack.py are the model's acceptance test. -/
 set_option autoImplicit false
 set_option linter.unusedSimpArgs false
 set_option linter.unusedVariables false
@@ -14,18 +10,6 @@ open Cls
 
 namespace Src
 variable {α κ : Type}
-
-/-! ### `file_idx` of `get_data` -/
-
-/-- **the file index `get_data` computes is the model's `fileIdx`** -/
-theorem file_idx_eq (rows cols S T V v t s : Nat) :
-    Py.file_idx_slice [rows, cols, S, T, V] v t s = Stk.fileIdx S T s t v := by
-  simp [Py.file_idx_slice, Stk.fileIdx, Nat.mul_comm]
-
-/-- one file per volume: the index is the volume number -/
-theorem file_idx_volume_eq (rows cols S T V v t : Nat) :
-    Py.file_idx_volume [rows, cols, S, T, V] v t = v * T + t := by
-  simp [Py.file_idx_volume]
 
 /-! ### the count checks of `get_shape` -/
 section shape_counts
@@ -61,14 +45,6 @@ theorem acceptB_counts (spacingOk : List Int → Bool) (files : List F) :
   simp [acceptB, countsOk, Bool.and_assoc]
 
 end shape_counts
-
-/-! ### trimming of unused axes in `get_data` -/
-
-/-- **the trimming block of `get_data` as written in dcmstack.py is the model's `stackTrim`** -/
-theorem get_data_trim_eq (a : Wrap.Arr α) (rows cols S T V : Nat) :
-    Py.get_data_trim a [rows, cols, S, T, V] = .ok (Wrap.stackTrim a T V) := by
-  by_cases hV : V = 1 <;> by_cases hT : T = 1 <;>
-    simp [Py.get_data_trim, Wrap.stackTrim, hV, hT, pure, Except.pure]
 
 /-! ### the thorough check of `_chk_order` -/
 
